@@ -68,7 +68,7 @@ def only_clauses(unit, prop, kinds=("raises", "pre", "frame"), label="exception-
     return dataclasses.replace(unit, prop=prop, post=post, raises=filtered(unit.raises), label=(unit.label + "+" + label).lstrip("+"))
 
 
-R2_MODULES = ["r2_actions", "r2_annotations", "r2_coremisc", "r2_jsonnetopt", "r2_keys", "r2_linksig", "r2_loaders", "r2_paths", "r2_resolver", "r2_typehelpers", "r2_utilmisc"]
+R2_MODULES = ["r2_actions", "r2_annotations", "r2_coremisc", "r2_jsonnetopt", "r2_keys", "r2_linksig", "r2_loaders", "r2_paths", "r2_regtypes", "r2_resolver", "r2_typehelpers", "r2_utilmisc"]
 
 
 def carried(prop):
